@@ -158,30 +158,35 @@ Fixpoint ml_loop (ignore : bool) (scr : script) (w : world) : res unit :=
     end
   else Ret tt scr w.
 
+(** checkreply() between netget(1) and the continuation loop: the [if (status) { ... }]
+    block.  Result: the value of [ignore] and the world after the writes. *)
+Definition cr_head (status : option bytes) (pre : option (list bytes)) (mask : N) (res : Z) (w1 : world)
+  : bool * world :=
+  match status with
+  | None => (true, w1)
+  | Some st =>
+      let '(ign, m) :=
+        if (QR_SUCCESS_MINIMUM_STATUS <=? res)%Z && (res <=? QR_SUCCESS_MAXIMUM_STATUS)%Z then
+          (if N.eqb (nth 0 st 0%N) SP then (true, 0) else (false, 0))
+        else if (QR_TEMP_MINIMUM_STATUS <=? res)%Z && (res <=? QR_TEMP_MAXIMUM_STATUS)%Z then (false, 1)
+        else (false, 2) in
+      if ign then (true, w1) else
+        let wa := write_status_raw [nth m st 0%N] w1 in
+        let wb := match pre with
+                  | Some p => if negb (N.eqb (N.land (N.shiftl 1 (N.of_nat m)) mask) 0)
+                              then write_status_raw_m p wa else wa
+                  | None => wa
+                  end in
+        if Nat.eqb m 0 && negb (N.eqb (N.land mask QR_CR_NOMSG_MASK) 0)
+        then (true, write_status_raw [0%N] wb)
+        else (false, wb)
+  end.
+
 Definition checkreply (status : option bytes) (pre : option (list bytes)) (mask : N)
                       (scr : script) (w : world) : res Z :=
   match netget1 scr w with
   | Ret res scr1 w1 =>
-      let '(ignore, w2) :=
-        match status with
-        | None => (true, w1)
-        | Some st =>
-            let '(ign, m) :=
-              if (QR_SUCCESS_MINIMUM_STATUS <=? res)%Z && (res <=? QR_SUCCESS_MAXIMUM_STATUS)%Z then
-                (if N.eqb (nth 0 st 0%N) SP then (true, 0) else (false, 0))
-              else if (QR_TEMP_MINIMUM_STATUS <=? res)%Z && (res <=? QR_TEMP_MAXIMUM_STATUS)%Z then (false, 1)
-              else (false, 2) in
-            if ign then (true, w1) else
-              let wa := write_status_raw [nth m st 0%N] w1 in
-              let wb := match pre with
-                        | Some p => if negb (N.eqb (N.land (N.shiftl 1 (N.of_nat m)) mask) 0)
-                                    then write_status_raw_m p wa else wa
-                        | None => wa
-                        end in
-              if Nat.eqb m 0 && negb (N.eqb (N.land mask QR_CR_NOMSG_MASK) 0)
-              then (true, write_status_raw [0%N] wb)
-              else (false, wb)
-        end in
+      let '(ignore, w2) := cr_head status pre mask res w1 in
       match ml_loop ignore scr1 w2 with
       | Ret _ scr3 w3 =>
           let w4 := if ignore then w3 else write_status (w_linein w3) w3 in
